@@ -50,8 +50,11 @@ def _cases(draw, tier):
         return {'kind': 'embedded', 'inst': inst, 'maps': draw(strategies.id_maps(inst))}
     if kind == 'large':
         # two-digit ids: assignments are drawn, not enumerated
-        inst = draw(strategies.instances(LARGE, two_sided=True, cls=draw(st.sampled_from(
-            ['generic', 'generic', 'shared_tight', 'heavy_ties', 'two_agent']))))
+        if pct(draw) < 30:
+            inst = draw(strategies.crowd_instances(two_sided=True))
+        else:
+            inst = draw(strategies.instances(LARGE, two_sided=True, cls=draw(st.sampled_from(
+                ['generic', 'generic', 'shared_tight', 'heavy_ties', 'two_agent']))))
         picks = [[draw(st.sampled_from(strategies._CH)) for _ in range(inst['n1'])]
                  for _ in range(8)]
         return {'kind': 'large', 'inst': inst, 'picks': picks}
@@ -59,6 +62,13 @@ def _cases(draw, tier):
                                 'zero_capacity', 'zero_capacity', 'lower_quotas', 'two_agent',
                                 'more_lecturers']))
     inst = draw(strategies.instances(strategies.SIZES[tier], two_sided=True, cls=cls))
+    if kind == 'lp' and pct(draw) < 20:
+        # hundreds of students on one hospital / lecturer: the matching comes from real CBC
+        inst = draw(strategies.crowd_instances(two_sided=True))
+        opts = draw(strategies.option_sets(inst, min_crit=0, max_crit=1, twopl=True, stab=True,
+                                           pc=False, names=['maxsize', 'minsize', 'mincost']))
+        return {'kind': 'lp', 'inst': inst, 'opts': opts, 'salt': salt, 'choices': [],
+                'mode': 'cbc'}
     if kind == 'lp':
         opts = draw(strategies.option_sets(inst, min_crit=0, max_crit=2, twopl=True, stab=True))
         return {'kind': 'lp', 'inst': inst, 'opts': opts, 'salt': salt,
